@@ -609,6 +609,9 @@ func planC17(t *testing.T, tier string, seed uint64) ([]RunSpec, error) {
 		if k%4 == 3 {
 			ps["fatal"] = 1
 			wl = "c17/free-race-fatal"
+		} else if k%4 == 1 {
+			ps["shared"] = 1 + (k/4)%3
+			wl = "c17/free-race-shared-" + []string{"", "list", "object", "readers"}[ps["shared"]]
 		}
 		plan = append(plan, RunSpec{Property: "C17", Workload: wl, Params: ps, Seed: runSeed(seed, 900000+k)})
 	}
